@@ -17,6 +17,13 @@ import allmydata.storage.crawler as _crawler
 if not hasattr(_crawler.si_b2a, "cache_info"):
     _crawler.si_b2a = functools.lru_cache(maxsize=4096)(_crawler.si_b2a)
 
+# Retrieve iterates over a set of (shnum, server, timestamp) tuples; grid.VServer hashes by id(), so
+# which of two servers holding the same share number comes last would depend on memory addresses.
+# Give the harness's server objects a stable hash (equality stays identity) for the processes that
+# import this module: the same case then takes the same path in every process.
+if grid.VServer.__hash__ is object.__hash__:
+    grid.VServer.__hash__ = lambda self: hash(self.serverid)
+
 CONT = 468          # container header + four lease slots
 
 
@@ -233,3 +240,32 @@ def async_cpu():
     finally:
         for m, s in zip(mods, saved):
             m.defer_to_thread = s
+
+
+# ------------------------------------------------------------------ runaway guard
+class _BoundedPending(list):
+    limit = 400
+
+    def append(self, ev):
+        if len(self) >= self.limit:
+            raise grid.HarnessError("more than %d undelivered remote calls queued without the scheduler ever being reached: the code under test is spinning" % self.limit)
+        list.append(self, ev)
+
+
+def bound_pending(g, limit=400):
+    """A loop inside the code under test that issues a remote call per iteration and never returns
+    to the reactor would eat all memory; make the (harness-side) call queue refuse to grow beyond
+    `limit`: the raise surfaces inside the spinning code as grid.HarnessError and ends the operation."""
+    q = _BoundedPending(g.sched.pending)
+    q.limit = limit
+    g.sched.pending = q
+
+
+def rehome(blob, server_index, cap_w):
+    """the container file as server `server_index` would have created it for the holder of write-cap
+    `cap_w`: the write enabler in the container header is per (file, server)"""
+    from allmydata import uri as _uri
+    from allmydata.util import hashutil as _hu
+    wk = _uri.from_string(cap_w).writekey
+    sid = grid.server_id(server_index)
+    return blob[:32] + sid + _hu.ssk_write_enabler_hash(wk, sid) + blob[84:]
